@@ -182,10 +182,55 @@ def dictGet {α} (tbl : List (Int × α)) (k : Int) : Except Err α :=
 /-- `k in d` -/
 def dictHas {α} (tbl : List (Int × α)) (k : Int) : Bool := tbl.any (fun p => p.1 == k)
 
-/-- a row of `SPEC_BY_STATUS` as far as the translated code reads it -/
+/-- a row of `SPEC_BY_STATUS` / `SPEC_BY_TYPE` as far as the translated code reads it -/
 structure SpecRow where
   type : String
   length : Int
+  status_byte : Int := 0
+  value_names : List String := []
   deriving DecidableEq, Repr, Inhabited
+
+/-- `d[k]` / `k in d` on a dict with string keys -/
+def dictGetS {α} (tbl : List (String × α)) (k : String) : Except Err α :=
+  match tbl.find? (fun p => p.1 == k) with
+  | some p => .ok p.2
+  | none => .error .KeyError
+
+def dictHasS {α} (tbl : List (String × α)) (k : String) : Bool := tbl.any (fun p => p.1 == k)
+
+/-- a value in a message dict (`decode_message` builds one, `encode_message` reads one): an int, a string
+    (`'type'`), or a tuple of ints (`'data'`) -/
+inductive DV
+  | int (i : Int) | str (s : String) | ints (l : List Int)
+  deriving DecidableEq, Repr, Inhabited
+
+/-- a `dict` with string keys, in insertion order -/
+abbrev PyDict := List (String × DV)
+
+/-- `d[k] = v`: an existing key keeps its place, a new key goes to the end -/
+def dset (d : PyDict) (k : String) (v : DV) : PyDict :=
+  if d.any (fun p => p.1 == k) then d.map (fun p => if p.1 == k then (k, v) else p) else d ++ [(k, v)]
+
+/-- `d.update(e)` and `{k: v for k, v in pairs}` -/
+def dupdate (d e : PyDict) : PyDict := e.foldl (fun d p => dset d p.1 p.2) d
+def dfromPairs (ps : List (String × DV)) : PyDict := dupdate [] ps
+
+/-- `d[k]` where the code goes on to use the value as an int / a string / a sequence of ints (a value of another kind
+    is outside the translated fragment and reported as TypeError) -/
+def dgetInt (d : PyDict) (k : String) : Except Err Int :=
+  match d.find? (fun p => p.1 == k) with
+  | some (_, .int i) => .ok i
+  | some _ => .error .TypeError
+  | none => .error .KeyError
+def dgetStr (d : PyDict) (k : String) : Except Err String :=
+  match d.find? (fun p => p.1 == k) with
+  | some (_, .str s) => .ok s
+  | some _ => .error .TypeError
+  | none => .error .KeyError
+def dgetInts (d : PyDict) (k : String) : Except Err (List Int) :=
+  match d.find? (fun p => p.1 == k) with
+  | some (_, .ints l) => .ok l
+  | some _ => .error .TypeError
+  | none => .error .KeyError
 
 end Mido.Py
